@@ -712,6 +712,50 @@ def insertAllBulk {σ ε : Type} (S : Source σ Item ε) (s : σ) (g : FastStore
   | (s', (g', _), some (.error e)) => (s', g', some (.error e))
   | (s', (g', _), none) => (s', g', none)
 
+/-! ### Adapter sinks: `GraphAsDataset` (api/src/dataset/adapter.rs), `DatasetGraph` (api/src/graph/adapter.rs) -/
+
+/-- `GraphAsDatasetMutationError` -/
+inductive GadError where
+  | graph (e : StoreError)
+  | onlyDefaultGraph
+  deriving Repr, DecidableEq
+
+/-- `GraphAsDataset::insert`: `if g.is_none() { self.0.insert(s, p, o).map_err(Graph) } else { Err(OnlyDefaultGraph) }`;
+the wrapped graph stores the triple -/
+def gadInsert (st : Store) (i : Item) : Store × Except GadError Bool :=
+  match i with
+  | .quad _ (_ + 1) => (st, .error .onlyDefaultGraph)
+  | i =>
+    match st.insert (.triple i.val) with
+    | (g, .ok b) => (g, .ok b)
+    | (g, .error e) => (g, .error (.graph e))
+
+/-- the provided `MutableDataset::insert_all` closure on a `GraphAsDataset` -/
+def gadInsertAllSink : Sink (Store × Nat) Item GadError := fun st t =>
+  match gadInsert st.1 t with
+  | (g, .error e) => ((g, st.2), .error e)
+  | (g, .ok true) => ((g, st.2 + 1), .ok ())
+  | (g, .ok false) => ((g, st.2), .ok ())
+
+def insertAllGad {σ ε : Type} (S : Source σ Item ε) (s : σ) (g : Store) :=
+  match tryForEachTriple S (tap gadInsertAllSink) s ([], (g, 0)) with
+  | (s', (log, (g', c)), r) => (s', log, g', andOk r c)
+
+/-- `DatasetGraph::insert` / `remove`: `d.insert(s, p, o, g)` / `d.remove(s, p, o, g)` with the adapter's graph name -/
+def dsgInsertAllSink (gn : Nat) : Sink (Store × Nat) Item StoreError := fun st t =>
+  insertAllSink st (.quad t.val gn)
+
+def dsgRemoveAllSink (gn : Nat) : Sink (Store × Nat) Item StoreError := fun st t =>
+  removeAllSink st (.quad t.val gn)
+
+def insertAllDsg {σ ε : Type} (gn : Nat) (S : Source σ Item ε) (s : σ) (g : Store) :=
+  match tryForEachTriple S (tap (dsgInsertAllSink gn)) s ([], (g, 0)) with
+  | (s', (log, (g', c)), r) => (s', log, g', andOk r c)
+
+def removeAllDsg {σ ε : Type} (gn : Nat) (S : Source σ Item ε) (s : σ) (g : Store) :=
+  match tryForEachTriple S (tap (dsgRemoveAllSink gn)) s ([], (g, 0)) with
+  | (s', (log, (g', c)), r) => (s', log, g', andOk r c)
+
 /-- `impl CollectibleGraph for HashSet<[T;3], S>` / `BTreeSet<[T;3]>` (and the dataset twins):
 `triples.for_each_triple(|t| { s.insert(..); }).map_err(SourceError)?; Ok(s)` -/
 def collectSet {σ ε : Type} (S : Source σ Item ε) (s : σ) :
